@@ -2076,13 +2076,14 @@ def c19_sites(repo_root, tier):
                 conds.append(ast.unparse(n.args[0].elt))
         lam_ok = ("is_undefined(r) or not is_truthy(r)" if negated else "not is_undefined(r) and is_truthy(r)")
         want = {lam_ok, lam_ok.replace("(r)", "(rv)"),
-                ("_getitem(itm, key) != value" if negated else "_getitem(itm, key) == value"),
+                # the equality of the `==` operator (_eq: a boolean equals only a boolean), not Python's (True == 1)
+                ("not _eq(_getitem(itm, key), value)" if negated else "_eq(_getitem(itm, key), value)"),
                 ("not is_truthy(_getitem(itm, key))" if negated else "is_truthy(_getitem(itm, key))")}
         bad = [c for c in conds if c not in want]
         ok = not bad and len(conds) >= 3
         _ob(obs, f"{mn}:{cn}.__call__/site.selection-predicate", ok,
-            f"selects by {sorted(set(conds))}: Liquid truthiness (is_truthy) of the looked-up value in the string-key form, as in the lambda form" if ok
-            else f"selection predicates {bad or conds} differ from the lambda form's truthiness test (e.g. `not in (False, None)` is false for 0)")
+            f"selects by {sorted(set(conds))}: Liquid truthiness (is_truthy) / Liquid equality (_eq) of the looked-up value in the string-key form, as in the lambda form" if ok
+            else f"selection predicates {bad or conds} differ from the lambda form's truthiness / equality (e.g. `not in (False, None)` is false for 0; Python `==` makes true equal 1)")
     # has == a match exists: any() over booleans, not over the matching items
     m = repo.module("liquid2.builtin.filters.find_filters")
     fn = m.find("HasFilter.__call__") if m else None
